@@ -1,6 +1,6 @@
 """C01 - multi-signature soundness (DESIGN.md section 4, C01)."""
 from engine import Sink
-from props.common import Ctx  # noqa: F401
+from props.common import Ctx, between  # noqa: F401
 
 EXPLANATION = (
     'Static rules over the MIR of mithril-stm: (a) R1 guarded must-pass-through - every success path of '
@@ -34,7 +34,8 @@ SINGLE_VERIFY = 'mithril_stm::*::SingleSignatureForConcatenation::verify'
 
 def has(og, pat):
     from core import glob_match
-    return any(glob_match(pat, o) for o in og)
+    # a field path under the named origin also counts (getters spliced by the inliner make origins more precise)
+    return any(glob_match(pat, o) or (pat[-1] != '*' and glob_match(pat + '.*', o)) for o in og)
 
 
 def run(ctx):
@@ -62,7 +63,7 @@ def run(ctx):
                    lambda g: has(g.a_orig | g.b_orig, 'call:std::collections::hash::set::HashSet::len'),
                    {'eq'}, key='preliminary_verify:unique')
     ctx.guard_gate('a', PRELIM, 'index count >= k',
-                   lambda g: has(g.b_orig, 'param:parameters.k') and not has(g.a_orig, 'param:parameters.k'),
+                   between(['call:std::collections::hash::set::HashSet::insert', 'call:*::len', 'pty:SingleSignatureForConcatenation.indexes', 'lty:SingleSignatureForConcatenation.indexes', 'const:*'], ['pty:Parameters.k']),
                    {'eq', 'gt'}, key='preliminary_verify:quorum')
 
     # the count compared with k and with the set size is the number of inserted indices
@@ -70,12 +71,14 @@ def run(ctx):
     if f is not None:
         from engine import find_guards
         gs = find_guards(f.body)
-        ku = [g for g in gs if has(g.a_orig | g.b_orig, 'call:std::collections::hash::set::HashSet::len')]
-        kq = [g for g in gs if has(g.b_orig, 'param:parameters.k') and not has(g.a_orig, 'param:parameters.k')]
+        LEN = 'call:std::collections::hash::set::HashSet::len'
+        K = 'pty:Parameters.k'
+        ku = [g for g in gs if has(g.a_orig | g.b_orig, LEN)]
+        kq = [g for g in gs if (has(g.b_orig, K) and not has(g.a_orig, K)) or (has(g.a_orig, K) and not has(g.b_orig, K))]
         if ku and kq:
             # both counts derive from the same origins as the unique-guard's counter side
-            cu = ku[0].a_orig if not has(ku[0].a_orig, 'call:std::collections::hash::set::HashSet::len') else ku[0].b_orig
-            cq = kq[0].a_orig
+            cu = ku[0].a_orig if not has(ku[0].a_orig, LEN) else ku[0].b_orig
+            cq = kq[0].a_orig if not has(kq[0].a_orig, K) else kq[0].b_orig
             same = (cu - {'overflow'}) == (cq - {'overflow'})
             if same:
                 R.ok('a', 'R5', 'preliminary_verify: the count tested against k is the count tested for uniqueness',
@@ -87,7 +90,7 @@ def run(ctx):
 
     # ---- (b) bound direction
     ctx.guard_gate('b', CHECK_INDICES, 'index < m',
-                   lambda g: has(g.a_orig, 'param:self.indexes') and has(g.b_orig, 'param:params.m'),
+                   between(['pty:SingleSignatureForConcatenation.indexes'], ['pty:Parameters.m']),
                    {'lt'}, key='check_indices:index<m', per_item=True)
 
     # ---- (c) lottery arguments
